@@ -308,6 +308,55 @@ func main() {
 		os.WriteFile(scanOut, []byte(sw.String()), 0644)
 	}
 
+	// ---- sasl/sasl_encoding.go: the four codec methods -> Gen/Codec.lean (the loops over the parts
+	// are the parameters enc / dec: modelled, not translated)
+	{
+		var w strings.Builder
+		w.WriteString("/- GENERATED by harness/cmd/factgen (translate.go) from /repo's source on every run. Do not edit. -/\n")
+		w.WriteString("import Whawty.Gen.Prelude\nnamespace Whawty.Gen\nopen Whawty\n\n")
+		type m struct{ recv, name, lean, ty string }
+		ms := []m{
+			{"Request", "Encode", "requestEncode", "(List Bytes → Bool) → Bytes → Bytes → Bytes → Bytes → Bool"},
+			{"Request", "Decode", "requestDecode", "(Nat → Option (List Bytes)) → Bytes → Bytes → Bytes → Bytes → Bool × Bytes × Bytes × Bytes × Bytes"},
+			{"Response", "Encode", "responseEncode", "(List Bytes → Bool) → Bool → Bytes → Bool"},
+			{"Response", "Decode", "responseDecode", "(Nat → Option (List Bytes)) → Bool → Bytes → Bool × Bool × Bytes"},
+		}
+		fset, f := parse(filepath.Join(repo, "sasl", "sasl_encoding.go"))
+		for _, x := range ms {
+			if f != nil {
+				w.WriteString(translateMethod(f, fset, x.recv, x.name, x.lean, x.ty, fileIntConsts(f), nil))
+			} else {
+				w.WriteString("def " + x.lean + " : Option (" + x.ty + ") := none\n")
+			}
+			w.WriteString("\n")
+		}
+		w.WriteString("end Whawty.Gen\n")
+		o := filepath.Join(filepath.Dir(out), "Codec.lean")
+		old, _ := os.ReadFile(o)
+		if string(old) != w.String() {
+			os.WriteFile(o, []byte(w.String()), 0644)
+		}
+	}
+
+	// ---- store/userhash_argon2id.go: NewArgon2IDHasher -> Gen/Argon.lean
+	{
+		var w strings.Builder
+		w.WriteString("/- GENERATED by harness/cmd/factgen (translate.go) from /repo's source on every run. Do not edit. -/\n")
+		w.WriteString("import Whawty.Gen.Prelude\nnamespace Whawty.Gen\nopen Whawty\n\n")
+		ty := "Int → Int → Int → Int → Bool × Bool"
+		if fset, f := parse(filepath.Join(repo, "store", "userhash_argon2id.go")); f != nil {
+			w.WriteString(translateFunc(f, fset, "NewArgon2IDHasher", "newArgon2IDHasher", ty, fileIntConsts(f), nil))
+		} else {
+			w.WriteString("def newArgon2IDHasher : Option (" + ty + ") := none\n")
+		}
+		w.WriteString("\nend Whawty.Gen\n")
+		o := filepath.Join(filepath.Dir(out), "Argon.lean")
+		old, _ := os.ReadFile(o)
+		if string(old) != w.String() {
+			os.WriteFile(o, []byte(w.String()), 0644)
+		}
+	}
+
 	// ---- store/store.go: checkUserFile -> Gen/CheckFile.lean
 	var cw strings.Builder
 	cw.WriteString("/- GENERATED by harness/cmd/factgen (translate.go) from /repo's source on every run. Do not edit. -/\n")
